@@ -60,7 +60,7 @@ PROPS = {
         "exhaustive": {"quick": False, "thorough": True},
         "rule": "sweep of the header routine (verif-tagged export) over (format, element count): thorough = every count with count*width in 0..16,777,215 plus the next 64 "
                 "(about 136M calls, exhaustive), quick = all counts <= 70000, +-300 around each border, seeded stride beyond; plus real items built through the factories at "
-                "counts {0,1, around 255|256 and 65535|65536, limit-1, limit, limit+1, limit+2} for all 14 formats, encoded, framed and decoded back - at the length-field borders also as a child of a list, alone and between siblings. Oracle: reference header "
+                "counts {0,1, around 255|256 and 65535|65536, limit-1, limit, limit+1, limit+2} for all 14 formats, encoded, framed and decoded back - at the length-field borders also as a child of a list, alone and between siblings; SML: a two-element item of every format with a declared upper bound at and beyond the capacity of the format must be accepted. Oracle: reference header "
                 "(format code, shortest big-endian length, 1/2/3 bytes at exactly 255|256 and 65535|65536, refusal beyond the limit); factory succeeds iff count*width <= 16,777,215; "
                 "ToBytes() non-empty with that header and exact total length; decoder re-encodes to the same bytes. Non-trivial: count > 0; distinct by (format, count) by construction.",
         "assumptions": COMMON_ASSUMPTIONS + ["hook: pkg/ast/export_verif.go (build tag verif) only forwards to the unexported header routine"],
@@ -153,7 +153,7 @@ PROPS = {
         "jobs": [{"test": "TestC11", "kind": "rapid", "quick": 100000, "thorough": 480000}],
         "floors": {"op:observe": ("job:TestC11", 0.5), "op:decode": ("job:TestC11", 0.3), "op:fill": ("job:TestC11", 0.5)},
         "rule": "rapid-generated histories (2..30 steps) over a growing pool of items, data messages and control messages: build an item from generated arguments (then overwrite the "
-                "argument slices), build a list sharing pooled items, FillVariables on a pooled item/message with values that vary from call to call - zeros of both signs for floats - (then overwrite and extend the map), NewDataMessage/NewHSMSDataMessage from a "
+                "argument slices), build a list sharing pooled items, FillVariables on a pooled item/message with values that vary from call to call - zeros of both signs for floats, renames onto a name that the same call releases - (then overwrite and extend the map), NewDataMessage/NewHSMSDataMessage from a "
                 "pooled item, SetWaitBit, SetSessionIDAndSystemBytes (then overwrite the passed bytes), observers ToBytes/Variables/SystemBytes (then overwrite every returned slice in place), "
                 "hsms.Parse of pooled bytes (then overwrite the input buffer), control-message constructors (then overwrite header / system-bytes argument), responses from pooled requests. "
                 "Oracle (history invariant): after every step the snapshot (String, ToBytes, Variables, Size, Name, codes, wait bit, direction, session id, system bytes, Header, Type) of every "
@@ -171,7 +171,7 @@ PROPS = {
                 "spelling of every literal and keyword (decimal / 0x / 0o / 0b with either-case prefixes and digits, signs, floats as shortest / %e / %f / 25-digit / integer-looking with "
                 "e or E and optional +, strings as quoted runs of any printable ASCII incl. backslash, //, <, >, . split into several runs (also empty ones) and character codes in any base, T/F/t/f, type names "
                 "and header tokens in any case, optional size declarations in all four forms). In a third of the cases one literal that the item type cannot represent (just out of range, "
-                "wrongly typed, non-ASCII, invalid UTF-8, absurdly large; for every integer type incl. the 64-bit ones at random distances beyond the range and around the multiples of the wrap-around modulus) is inserted. Oracle: MUST-ACCEPT texts: no error, one message per written message, header fields and variables equal, "
+                "wrongly typed, non-ASCII, invalid UTF-8, absurdly large, a variable in front of the values of an ASCII item; for every integer type incl. the 64-bit ones at random distances beyond the range and around the multiples of the wrap-around modulus) is inserted. Oracle: MUST-ACCEPT texts: no error, one message per written message, header fields and variables equal, "
                 "String() equal to the message constructed directly from the denoted values, and after completion ToBytes() == reference encoding of the denoted values; MUST-REJECT texts: "
                 ">= 1 error and no message. Non-trivial: >= 1 literal that is not a plain decimal/shortest float, or a rejected text.",
         "notes": ["spellings whose denotation is not documented (+5 in an unsigned item, -0, 5. / .5, leading-zero decimals, hex in float items, raw control characters inside quotes) are not generated"],
@@ -203,7 +203,7 @@ PROPS = {
                    "outcome:accepted": ("job:TestC06", 0.1), "outcome:errors": ("job:TestC06", 0.3)},
         "rule": "strings up to 64 KiB: token soups over the SML vocabulary with hostile fragments (20-40 digit numbers in stream/function/sizes/literals, every Unicode space in every "
                 "position, invalid UTF-8, NUL, unclosed quotes and brackets, duplicated variables with and without huge sizes), nesting up to the depth cap, valid generated texts under "
-                "random layouts, the same with one token- or byte-level mutation, valid texts ended right behind a token (with raised weight between items / messages) by a fragment that leaves the lexer in the middle of a string, size, comment, number, name or multi-byte character, random bytes. Oracle, in an isolated worker process (RLIMIT_AS 4 GiB, 20 s + 60 s two-stage watchdog): "
+                "random layouts, the same with one token- or byte-level mutation, valid texts ended right behind a token (with raised weight between items / messages) by a fragment that leaves the lexer in the middle of a string, size, comment, number, name or multi-byte character or is a complete size block out of place, random bytes. Oracle, in an isolated worker process (RLIMIT_AS 4 GiB, 20 s + 60 s two-stage watchdog): "
                 "returns normally (no escaping panic, no fatal runtime error, no hang); errors => no messages; valid-by-construction texts without errors return every written message in order; "
                 "every error and warning reads Ln x, Col y: text with the position inside the input. Non-trivial: the input contains a complete SxFy token.",
         "notes": ["operational limits (part of the property's definition here): input <= 64 KiB, address space 4 GiB, watchdog 20 s then 60 s alone in a fresh worker; nesting depth capped (300 quick / 2000 thorough) because parsing is quadratic in depth"],
@@ -228,7 +228,7 @@ PROPS = {
             {"test": "TestC15", "kind": "rapid", "quick": 40000, "thorough": 800000},
         ],
         "floors": {"literal:within": ("job:TestC15", 0.1), "literal:outside": ("job:TestC15", 0.2), "variable:small-bounds": ("job:TestC15", 0.03), "variable:huge-bounds": ("job:TestC15", 0.01)},
-        "rule": "exhaustive: 4 declaration forms x 14 item types x lower, upper, actual element count in 0..5 (literal items, alone and as list children; lists of literal children; ASCII literals also as one run per character plus 1..3 empty runs); ASCII "
+        "rule": "exhaustive: 4 declaration forms x 14 item types x lower, upper, actual element count in 0..5 (literal items, alone and as list children; lists of literal children; ASCII literals also as one run per character plus 1..3 empty runs; the violating item also twice on one line, position of the second report checked); ASCII "
                 "variables with every form and bounds 0..5 directly and carried through a list expansion; NewASCIINodeVariable over a grid of (min, max) incl. invalid ones. Random: bounds "
                 "with 1-25 digits incl. 2^31, 2^63, 2^64 borders, blanks inside the brackets, counts near the declared bounds. Oracle: a literal is accepted iff lower <= count <= upper "
                 "(math/big; missing bound = unbounded) and then holds exactly that many elements; otherwise no message and an error at the line/column of the '[' token; an ASCII variable "
